@@ -56,6 +56,8 @@ def work(task):
         stats["runs"] += 1
         stats["nodes"] += nodes
         stats["trials"] += done
+        if getattr(vis, "horizon_stop", None):
+            stats["horizon_stops"] = stats.get("horizon_stops", 0) + 1
         if hasattr(vis, "summary"):
             for k, v in vis.summary().items():
                 stats["summary"][k] = stats["summary"].get(k, 0) + v
@@ -83,6 +85,8 @@ def replay(rec, visitor_spec):
         try:
             run.step(1)
         except BaseException as e:
+            if tree._horizon(run, cfg):
+                return msgs + list(vis.leaf(run) or ())
             msgs.append(f"DoGlobalIteration raised {type(e).__name__}: {e} at trial {j}")
             return msgs
         msgs += list(vis.node(run, j, True) or ())
@@ -149,12 +153,13 @@ def execute(tasks, res=None):
     # biggest first for load balance
     order = sorted(range(len(tasks)), key=lambda i: -_cost(tasks[i]))
     out = pmap(work, [tasks[i] for i in order])
-    agg = dict(runs=0, nodes=0, trials=0, tree_runs=0, dev_runs=0)
+    agg = dict(runs=0, nodes=0, trials=0, tree_runs=0, dev_runs=0, horizon_stops=0)
     summ = {}
     for i, (stats, viol) in zip(order, out):
         agg["runs"] += stats["runs"]
         agg["nodes"] += stats["nodes"]
         agg["trials"] += stats["trials"]
+        agg["horizon_stops"] += stats.get("horizon_stops", 0)
         agg["tree_runs" if tasks[i]["kind"] == "tree" else "dev_runs"] += stats["runs"]
         for k, v in stats.get("summary", {}).items():
             summ[k] = summ.get(k, 0) + v
